@@ -249,19 +249,30 @@ NameVariant(kind, w) ==
     [] kind \in {"AlgBadPtr", "KeyBadPtr"} -> Front(w) \o <<255, 255>>
 AlgKinds == {"AlgExtra", "AlgDouble", "AlgSigAlg", "AlgRoot", "AlgPrefix", "AlgUpper", "AlgCompressed", "AlgBadPtr"}
 KeyKinds == {"KeyExtra", "KeyFewer", "KeyRoot", "KeyCompressed", "KeyBadPtr"}
-AdvAlgName == CanTamper /\ \E k \in AlgKinds \cap StructKinds :
+KC(a, cs, cm, ss, sm) == [alg |-> a, cs |-> cs, cm |-> cm, ss |-> ss, sm |-> sm]
+KeysQuick == { KC("sha256", 32, 32, 32, 32),     \* no truncation
+               KC("sha256", 16, 16, 16, 16),     \* both sides truncate to half
+               KC("sha1", 10, 10, 20, 10),       \* client truncates, server does not
+               KC("sha384", 48, 24, 24, 48),     \* server truncates, demands full MACs
+               KC("sha512", 32, 40, 40, 32),     \* asymmetric but compatible
+               KC("sha256", 16, 32, 16, 32) }    \* incompatible policy: BADTRUNC
+\* (explored for the key configurations of KeysQuick - one per algorithm and
+\* truncation pattern: the structure of the record does not interact with the
+\* truncation policy, so the thorough tier does not multiply the two)
+StructHere == cfg.kc \in KeysQuick
+AdvAlgName == CanTamper /\ StructHere /\ \E k \in AlgKinds \cap StructKinds :
                 Tamper(k, 0, WithTsig(M0, [LastRec(M0) EXCEPT !.alg = NameVariant(k, @)]))
-AdvKeyName == CanTamper /\ \E k \in KeyKinds \cap StructKinds :
+AdvKeyName == CanTamper /\ StructHere /\ \E k \in KeyKinds \cap StructKinds :
                 Tamper(k, 0, WithTsig(M0, [LastRec(M0) EXCEPT !.name = NameVariant(k, @)]))
 \* CLASS / TTL of the TSIG RR
-AdvClassTtl == CanTamper /\ \E k \in ClassTtlKinds \cap StructKinds :
+AdvClassTtl == CanTamper /\ StructHere /\ \E k \in ClassTtlKinds \cap StructKinds :
                 Tamper(k, 0, WithTsig(M0, CASE k = "ClassIn" -> [LastRec(M0) EXCEPT !.cls = 1]
                                             [] k = "ClassNone" -> [LastRec(M0) EXCEPT !.cls = 254]
                                             [] OTHER -> [LastRec(M0) EXCEPT !.ttl = 1]))
 \* lengths that disagree: an octet behind Other Data inside the RDATA, RDLENGTH
 \* beyond the end of the message, RDLENGTH that cuts the RDATA short, Other Len
 \* that announces other-data that is not there
-AdvLengths == CanTamper /\ \E k \in {"RdTrail", "RdLong", "RdShort", "OtherLenLong"} \cap StructKinds :
+AdvLengths == CanTamper /\ StructHere /\ \E k \in {"RdTrail", "RdLong", "RdShort", "OtherLenLong"} \cap StructKinds :
                 Tamper(k, 0, WithTsig(M0, CASE k = "RdTrail" -> [LastRec(M0) EXCEPT !.rdx = <<0>>]
                                             [] k = "RdLong" -> [LastRec(M0) EXCEPT !.rdadj = 1]
                                             [] k = "RdShort" -> [LastRec(M0) EXCEPT !.rdadj = -1]
@@ -488,13 +499,6 @@ UnsignedBound ==
 
 --------------------------------------------------------------------------
 (* Constant values for the .cfg files (records / tuples cannot be written there) *)
-KC(a, cs, cm, ss, sm) == [alg |-> a, cs |-> cs, cm |-> cm, ss |-> ss, sm |-> sm]
-KeysQuick == { KC("sha256", 32, 32, 32, 32),     \* no truncation
-               KC("sha256", 16, 16, 16, 16),     \* both sides truncate to half
-               KC("sha1", 10, 10, 20, 10),       \* client truncates, server does not
-               KC("sha384", 48, 24, 24, 48),     \* server truncates, demands full MACs
-               KC("sha512", 32, 40, 40, 32),     \* asymmetric but compatible
-               KC("sha256", 16, 32, 16, 32) }    \* incompatible policy: BADTRUNC
 KeysThorough == KeysQuick \cup
              { KC("sha1", 20, 20, 20, 20), KC("sha1", 20, 10, 12, 12),
                KC("sha384", 24, 24, 24, 24), KC("sha384", 48, 48, 48, 48), KC("sha384", 30, 25, 47, 30),
